@@ -294,8 +294,8 @@ def main(tier, seed):
             specs.append({"hw": hw, "budget": budget, "transpile": tr, "depth": deep_depth, "prefix": pre, "alphabet": alpha})
     # in-place measurements (the handle stays alive after the NV relocation) followed by further allocations
     alpha2 = ["new", "meas_inplace", "meas", "flush"]
-    deep2 = 6 if tier == "thorough" else 5
-    for hw, budget, tr in (("nv", 4, False), ("nv", 3, False), ("nv", 4, True)) if tier == "thorough" else (("nv", 4, False),):
+    deep2 = 5
+    for hw, budget, tr in (("nv", 4, False),):
         for pre in prefixes(budget - 1, 2):
             specs.append({"hw": hw, "budget": budget, "transpile": tr, "depth": deep2, "prefix": pre, "alphabet": alpha2})
     rep.bounds = [f"all histories of {deep2} operations over the alphabet {alpha2} (NV: relocation for an in-place measurement, then further allocations)",
